@@ -43,8 +43,13 @@ def _worker_init(prop):
 
 def _worker_run(case):
     t0 = time.time()
+    from common import INEXACT
+
+    INEXACT["count"] = 0
     try:
         out = _MOD.run_case(case)
+        if INEXACT["count"]:
+            out.setdefault("hist", {})["inexact_comparisons(<=1e-12 rel, not alarmed)"] = INEXACT["count"]
     except HarnessError as e:
         out = {"harness_error": str(e)}
     except Exception as e:  # noqa: BLE001
